@@ -1,6 +1,6 @@
 (* C01link — the first instance of C01_full with no gap: for every program q of the fragment F0 /\ F
    (identity, scalar literals, pipe, comma, empty, t[], t.k, if/else, try/catch and ?, error, length,
-   `src as $x | body`, $x, array construction [q], reduce, foreach (2- and 3-argument), the alternative operator //, label / break) that compiles, every input v (integers, strings, arrays, objects), the final
+   `src as $x | body`, $x, array construction [q], reduce, foreach (2- and 3-argument), the alternative operator //, label / break, the operators + - == != < <= > >= on inlined operands) that compiles, every input v (integers, strings, arrays, objects), the final
    code emitted for q (coq/c01vm/Compile.v: tied to compiler.go by instruction-list comparison on every
    sampled program) run on the VM (coq/c01vm/VM.v, natives = Sem's) produces exactly the outputs and the ending
    that the reference semantics Sem.observe gives for the translated program (tied to gojq by the C01
@@ -127,6 +127,27 @@ Example C01link_nonvacuous_label :
       let o := observe builtin_defs 60 50 false [] (emb q') (emb_v v) in
       let r := c01vm.VM.run sem_natives code 900 (c01vm.VM.init v) in
       o = ([VArr [VInt 1; VInt 2]; VArr [VInt 5; VObj [(codes "a", VInt 1)]]], EndNormal) /\
+      fst o = map emb_v (fst r) /\ end_rel (snd o) (snd r)
+  | _, _ => False
+  end.
+Proof. vm_compute. repeat split; reflexivity. Qed.
+
+(* operators: [.[] - .[]] on [1, 10] = [0, 9, -9, 0] (the RIGHT operand is the outer loop), a type error of + caught
+   with its message, and a comparison on length *)
+Example C01link_nonvacuous_binop :
+  let q := c01vm.Syntax.QComma
+     (c01vm.Syntax.QArray (c01vm.Syntax.QBinop c01vm.Syntax.OSub c01vm.Syntax.AIter c01vm.Syntax.AIter))
+     (c01vm.Syntax.QComma
+        (c01vm.Syntax.QTry (c01vm.Syntax.QBinop c01vm.Syntax.OAdd c01vm.Syntax.AId (c01vm.Syntax.AConst (c01vm.Syntax.VStr (codes "s"))))
+           (Some c01vm.Syntax.QId))
+        (c01vm.Syntax.QBinop c01vm.Syntax.OLt (c01vm.Syntax.ACall0 c01vm.Syntax.F0Length) (c01vm.Syntax.AConst (c01vm.Syntax.VNum 3)))) in
+  let v := c01vm.Syntax.VArr [c01vm.Syntax.VNum 1; c01vm.Syntax.VNum 10] in
+  match tr q, c01vm.Compile.compile q with
+  | Some q', Some code =>
+      let o := observe builtin_defs 60 50 false [] (emb q') (emb_v v) in
+      let r := c01vm.VM.run sem_natives code 900 (c01vm.VM.init v) in
+      List.length (fst o) = 3%nat /\ nth 0 (fst o) VNull = VArr [VInt 0; VInt 9; VInt (-9); VInt 0] /\
+      nth 1 (fst o) VNull = VStr (codes "cannot add: array ([1,10]) and string (""s"")") /\ nth 2 (fst o) VNull = VBool true /\
       fst o = map emb_v (fst r) /\ end_rel (snd o) (snd r)
   | _, _ => False
   end.
